@@ -184,6 +184,21 @@ def oracle(cmds, snaps):
             # consumes the pending rename whatever the backend's answer (250 or 451): a later RNTO needs a new RNFR
             sig = "C05:rnto-leaves-rename-pending"
             what = "%r was answered %r and the rename source is still pending (%s): a second RNTO would rename it" % (c, codes, snap["rnfr"])
+        if sig is None and first == "rnto" and finals == [250] and prev is not None and prev.get("fs") not in (None, "~") and snap.get("fs") not in (None, "~"):
+            # a rename moves things, it neither loses nor invents any: the same files (by content) and as many directories
+            def census(tok):
+                files, dirs = [], 0
+                for item in tok.split(";"):
+                    _, v = item.split("=", 1)
+                    if v == "D":
+                        dirs += 1
+                    else:
+                        files.append(v)
+                return sorted(files), dirs
+
+            if census(prev["fs"]) != census(snap["fs"]):
+                sig = "C05:rename-lost-or-invented-entries"
+                what = "%r was answered 250 but the tree no longer holds what it held: before %s, after %s" % (c, census(prev["fs"]), census(snap["fs"]))
         if sig is None and first == "retr" and finals == [226] and prev is not None:
             # restart offset applies only to the immediately following transfer
             pass
